@@ -2,6 +2,8 @@
 // containers. Templated vector harness shared by C02.cpp (primary header) and
 // C02_portable.cpp (the twin inside std_portable.h).
 #pragma once
+#include <cmath>
+#include <limits>
 #include "tracked.h"
 #include "vpbt.h"
 #include <algorithm>
@@ -500,6 +502,87 @@ template <class V, class T, class Api = ApiPrimary> struct VecRun
         }
     }
 };
+
+// Comparison of vectors whose element equality is not "same bytes": doubles (0.0 == -0.0, NaN != NaN) and a trivially
+// copyable record whose operator== looks at one field only. VD / VP: the container under test over double / KeyTag.
+struct KeyTag
+{
+    int key;
+    int tag;
+    bool operator==(const KeyTag &o) const { return key == o.key; }
+    bool operator!=(const KeyTag &o) const { return key != o.key; }
+    bool operator<(const KeyTag &o) const { return key < o.key; }
+};
+template <class VD, class VP> void cmp_target(Src &s, Case &c, const char *what)
+{
+    static const double vals[] = {0.0, -0.0, std::numeric_limits<double>::quiet_NaN(), 1.0, 2.5, -1.0};
+    size_t n = (size_t)s.range(0, 5), m = s.below(4) == 0 ? (size_t)s.range(0, 5) : n;
+    bool records = s.coin();
+    c.log("%s compare (%s) ", what, records ? "records compared by key" : "doubles");
+    if (records)
+    {
+        VP a, b;
+        std::vector<KeyTag> ra, rb;
+        for (size_t i = 0; i < n; i++)
+        {
+            KeyTag e{(int)s.below(3), (int)s.below(3)};
+            a.push_back(e);
+            ra.push_back(e);
+        }
+        for (size_t i = 0; i < m; i++)
+        {
+            // mostly the same keys with other tags
+            KeyTag e = i < ra.size() && s.below(4) ? KeyTag{ra[i].key, (int)s.below(3)} : KeyTag{(int)s.below(3), (int)s.below(3)};
+            b.push_back(e);
+            rb.push_back(e);
+        }
+        c.nontrivial = ra == rb && !ra.empty();
+        c.label(ra == rb ? "equal_by_key" : "different");
+        VP_CHECK((a == b) == (ra == rb), "vec_eq", "%s: == gives %d, std::vector %d", what, (int)(a == b), (int)(ra == rb));
+        VP_CHECK((a != b) == (ra != rb), "vec_ne", "%s: != gives %d, std::vector %d", what, (int)(a != b), (int)(ra != rb));
+        if constexpr (requires(const VP &p, const VP &q) { p < q; })
+            VP_CHECK((a < b) == (ra < rb), "vec_lt", "%s: < gives %d, std::vector %d", what, (int)(a < b), (int)(ra < rb));
+        return;
+    }
+    VD a, b;
+    std::vector<double> ra, rb;
+    for (size_t i = 0; i < n; i++)
+    {
+        double e = vals[s.below(6)];
+        a.push_back(e);
+        ra.push_back(e);
+        c.log("%g,", e);
+    }
+    c.log(" vs ");
+    for (size_t i = 0; i < m; i++)
+    {
+        double e = i < ra.size() && s.below(3) ? ra[i] : vals[s.below(6)];
+        if (e == 0.0 && s.coin())
+            e = -e; // the other zero
+        b.push_back(e);
+        rb.push_back(e);
+        c.log("%g,", e);
+    }
+    bool special = false;
+    for (double e : ra)
+        special |= e != e || (e == 0.0 && std::signbit(e));
+    for (double e : rb)
+        special |= e != e || (e == 0.0 && std::signbit(e));
+    c.nontrivial = special && n == m && n > 0;
+    c.label(special ? "has_nan_or_negative_zero" : "plain_values");
+    VP_CHECK((a == b) == (ra == rb), "vec_eq", "%s: == gives %d, std::vector %d", what, (int)(a == b), (int)(ra == rb));
+    VP_CHECK((a != b) == (ra != rb), "vec_ne", "%s: != gives %d, std::vector %d", what, (int)(a != b), (int)(ra != rb));
+    // with a NaN among the elements < is no strict weak order and std::vector itself answers differently in C++17
+    // (lexicographical_compare) and C++20 (synthesised three-way, "unordered"): judged only without NaN
+    bool has_nan = false;
+    for (double e : ra)
+        has_nan |= e != e;
+    for (double e : rb)
+        has_nan |= e != e;
+    if constexpr (requires(const VD &p, const VD &q) { p < q; })
+        if (!has_nan)
+            VP_CHECK((a < b) == (ra < rb), "vec_lt", "%s: < gives %d, std::vector %d", what, (int)(a < b), (int)(ra < rb));
+}
 
 template <class V, class T, class Api = ApiPrimary> void vec_target(Src &s, Case &c, const char *what)
 {
